@@ -693,7 +693,7 @@ class Gen:
             if cur_t is None or is_basic(cur_t) or cur_t == 'none':
                 break
             k = kind(cur_t)
-            if k in ('list', 'bl') and r.random() < 0.2:
+            if k in ('list', 'bl', 'Bl') and r.random() < 0.2:
                 out.append('len')
                 break
             if k == 'union' and r.random() < 0.25:
